@@ -236,13 +236,15 @@ var subC07 = &fw.Sub{Name: "c07.partitions", New: func() fw.Case { return &c07Ca
 var c07Tokens = []string{"var", "x1", "_", "12", "0x1F", "08", "2.5e+3", "1.5", `"a\"b"`, `"é"`, `"é\t"`, "==", "!=", "<=", ">=", "->", "=", "<", "-", "{", "}", "(", ")", ";", ":",
 	"#cé\n", "# \"x\r\n", "\r\n", "\n", "\u0085", " ", " ", "\t",
 	"\u010a", "\u0120", "\u0185", "\u4e0a", "\u20ac", "\U0001F600", "\ufeff", "\ufffd", "\u2028", "\"\u20ac\U0001F600\"", "#\u20ac\n",
-	"@", "!", `"abc`, "\"ab\ncd\"", "1.", "1e", "1e+", "1a", "0x1g", `a"`, `"a"b`, "é", "\xC2", "\xff", `"\`}
+	"@", "!", `"abc`, "\"ab\ncd\"", "1.", "1e", "1e+", "1a", "0x1g", `a"`, `"a"b`, "é", "\xC2", "\xff", `"\`,
+	// the Latin-1 bytes of the two non-ASCII separators (not UTF-8: U+FFFD, wherever a read ends)
+	"\x85", "\xa0"}
 
 func init() {
 	fw.Register(&fw.Check{
 		ID:    "C07",
 		Level: "model_checking",
-		Rule: "inputs: the hand-written corpus programs up to 60 bytes, every token kind alone and every ordered pair of 52 token/separator/failure spellings (two-character operators, escapes, comments, CR LF, 2-, 3- and 4-byte characters in strings, in comments and bare, U+0085/U+00A0 as whitespace, every lexical failure kind), bare and after `print `. " +
+		Rule: "inputs: the hand-written corpus programs up to 60 bytes, every token kind alone and every ordered pair of 54 token/separator/failure spellings (two-character operators, escapes, comments, CR LF, 2-, 3- and 4-byte characters in strings, in comments and bare, U+0085/U+00A0 as whitespace, every lexical failure kind), bare and after `print `. " +
 			"For each input EVERY partition into reads is enumerated: all 2^(n-1) compositions for n<=13 (thorough 16) plus zero-byte reads at every cut, every partition also with its last piece delivered together with io.EOF; all partitions with <=2 (thorough 3) cut points for longer inputs, each also with a zero-byte read; hundreds of zero-byte reads scattered over inputs of 100-600 bytes; long inputs (65 to 2288 lines, several pages, errors on late lines) under 8 fixed read sizes; and the real 4096-byte pages with the page boundary at every offset 0..n of the input (two kinds of padding). " +
 			"Oracle: ParseFile(scripted reader) = Parse(whole): same success, byte-identical dump, identical diagnostics. counters.partitions counts ParseFile executions.",
 		Subs:           []*fw.Sub{subC07},
